@@ -258,7 +258,7 @@ func oracle(c Case) vkit.Outcome {
 	v, execClass := judge(c, p, formatted, true)
 	if c.Dialect == sqlparse.SQLite {
 		// did the original execute without error? (histogram)
-		out.Labels = append(out.Labels, "exec "+execClass, "exec "+execClass+" "+kind)
+		out.Labels = append(out.Labels, "exec "+execClass)
 	}
 	if v == nil {
 		return out
